@@ -107,8 +107,9 @@ def lut_bytes(f, accel):
     if a["lut_index"] is None:
         return None
     base = hw.lut_start_bank(accel, True) * hw.SHRAM_BANK_BYTES
-    if f["ifm"]["bits"] == 8 and f["ofm"]["bits"] != 32:
-        return (base + a["lut_index"] * 256, base + a["lut_index"] * 256 + 256)
+    if f["ifm"]["bits"] == 8:
+        size = 256 if f["ofm"]["bits"] != 32 else 1024  # 256 entries of one byte, or of one 32-bit word
+        return (base + a["lut_index"] * size, base + a["lut_index"] * size + size)
     return (base, base + 2048)
 
 
